@@ -27,7 +27,10 @@ import (
 // truth (go/types view of $GOROOT/src per platform, $GOROOT/api/go1*.txt) as plain Coq data:
 //   coq/gen/BindRestricted_gen.v   extract's restricted table and the declarations of restricted.go
 //   coq/gen/Bind_math_gen.v        the group of go1_22_math.go (holds the witness of the known finding)
-//   coq/gen/Bind_00_gen.v ... Bind_15_gen.v   all other groups of the quick set, balanced
+//   coq/gen/Bind_00_gen.v ... Bind_15_gen.v   all other host-platform groups of the quick set, balanced
+//   coq/gen/BindX_00_gen.v ... BindX_15_gen.v the tables of every other platform (stdlib/syscall + stdlib/unrestricted,
+//                                  release the installed toolchain compiles), truth = go/types for that GOOS/GOARCH
+//   coq/gen/BindXDrift_gen.v       truth objects excused from completeness there (release drift, see bindCollection.drift)
 // Data only: no lemma, no proof.  The same collection code is used by the harness (c14.go).
 
 func init() {
@@ -1206,9 +1209,21 @@ func bindCollect(repo, tier string) (*bindCollection, error) {
 			return nil, e
 		}
 	}
-	rid, tid, wid := 0, 1000000, 2000000
+	// ids: rows from 1, truth objects from 1,000,001, wrappers from 2,000,001, in the order of the groups.
+	// The cross-platform groups number in blocks of their own (by position among the cross-platform
+	// groups), so that a row added to or removed from another file does not renumber them: only the
+	// shards whose files changed are regenerated and re-proved.
+	const xBlock = 6000
+	grid, gtid, gwid := 0, 1000000, 2000000
+	xi := 0
 	for gi, sp := range specs {
 		g := sp.g
+		rid, tid, wid := grid, gtid, gwid
+		if g.XPlat {
+			rid, tid, wid = 400000+xi*xBlock, 1400000+xi*xBlock, 2400000+xi*xBlock
+			xi++
+		}
+		rid0, tid0, wid0 := rid, tid, wid
 		// truth objects are shared between groups of one platform: copy them so that ids are per group
 		for ti, tp := range g.Truth {
 			cp := &truthPkg{Path: tp.Path, Name: tp.Name, byName: map[string]*truthObj{}, pkg: tp.pkg}
@@ -1241,7 +1256,17 @@ func bindCollect(repo, tier string) (*bindCollection, error) {
 				w.ID = wid
 			}
 		}
+		if g.XPlat {
+			if rid-rid0 >= xBlock || tid-tid0 >= xBlock || wid-wid0 >= xBlock {
+				return nil, fmt.Errorf("group %s exceeds the id block of %d", g.Name, xBlock)
+			}
+		} else {
+			grid, gtid, gwid = rid, tid, wid
+		}
 		col.Groups = append(col.Groups, g)
+	}
+	if grid >= 400000 || gtid >= 1400000 || gwid >= 2400000 {
+		return nil, fmt.Errorf("id ranges overlap: %d rows, %d truth objects, %d wrappers", grid, gtid-1000000, gwid-2000000)
 	}
 	return col, nil
 }
